@@ -7,7 +7,7 @@
    comparison of jax.grad with converged central finite differences. *)
 From Coq Require Import Reals List ZArith.
 From Coquelicot Require Import Coquelicot.
-From JV Require Import Prim RLemmas GSolverGate GChannels GCellUtils GateGeneric GradFacts
+From JV Require Import Prim RLemmas GSolverGate GChannels GCellUtils GateGeneric GradFacts GuardDerive
   Index IndexFacts Scan ScanFacts.
 Import ListNotations.
 Local Open Scope R_scope.
@@ -17,6 +17,14 @@ Local Open Scope R_scope.
 Theorem C05_guards_gradient_safe :
   (forall x y, 0 < y -> vtrap__r_gdom x y) /\ (forall x, efun__r_gdom x).
 Proof. split; [exact vtrap_gdom | exact efun_gen_gdom]. Qed.
+
+(* ... and inside the guard the helpers have the DERIVATIVE of the function they replace (x/(exp x - 1) has slope
+   -1/2 at 0): a guard returning the constant limit passes every value test and gives a zero gradient exactly at
+   the singular voltage *)
+Theorem C05_guards_have_the_right_derivative :
+  (forall x, Rabs x < 1 / 1000000 -> is_derive efun__r x (- (1 / 2))) /\
+  (forall x y, 0 < y -> Rabs (x / y) < 1 / 1000000 -> is_derive (fun t => vtrap__r t y) x (- (1 / 2))).
+Proof. split; [exact efun_derive_in_guard | exact vtrap_derive_in_guard]. Qed.
 
 (* gate updates are affine in the state with slope exp(-dt/tau) *)
 Theorem C05_update_derivative_in_state :
